@@ -31,7 +31,7 @@
 EXTENDS Naturals, Integers, Sequences, FiniteSets, TLC
 
 CONSTANTS
-  Mode,          \* "rtp" | "rtcp" | "compound" | "ext" | "nack" | "rtx" | "buf" | "gap"
+  Mode,          \* "rtp" | "rtcp" | "compound" | "foreign" | "ext" | "nack" | "rtx" | "buf" | "gap"
   Deviations,    \* subset of AllDeviations
   \* ---- RTP domain
   CsrcCounts,    \* e.g. {0, 1, 15, 16}   (16 is over-range: must be rejected)
@@ -414,17 +414,53 @@ CompoundLaws(s) ==
   /\ (Len(s) > 0 => CompoundOffsets(s)[Len(s)] + PartLen(s[Len(s)]) = CompoundTotal(s))
 
 ---------------------------------------------------------------------------
+(* ============================ foreign wire input (EXT) ================== *)
+(* Compound packets as a peer may legitimately send them, containing parts *)
+(* the stack has no logical type for (RTPFB / PSFB formats other than      *)
+(* NACK, TWCC, PLI, FIR, REMB; XR), or a REMB whose value exceeds the      *)
+(* logical u64 range. Beyond the listed property (it quantifies over the   *)
+(* stack's own logical packets): the expectation - the supported parts of  *)
+(* the compound are still delivered, an out-of-range REMB is refused or    *)
+(* saturated, never silently wrapped - is rule EXT.                        *)
+(*   RRR  : RTPFB fmt 5 (rapid resynchronisation request), 8-byte body     *)
+(*   SLI  : PSFB fmt 2 (slice loss indication), n entries of 4 bytes       *)
+(*   XR   : PT 207 extended report with no report blocks                   *)
+(*   REMBX: REMB with a = <<mantissa, exponent>>, mantissa * 2^exponent >= 2^64 *)
+ForeignParts ==
+  { Part("RRR", 0, <<>>, "mix"), Part("SLI", 1, <<>>, "mix"), Part("SLI", 2, <<>>, "mix"),
+    Part("XR", 0, <<>>, "mix"), Part("REMBX", 1, <<131072, 47>>, "mix"), Part("REMBX", 0, <<262143, 63>>, "mix") }
+ForeignCompanions ==
+  { Part("SR", 1, <<-1>>, "mix"), Part("RR", 1, <<0>>, "mix"), Part("SDES", 1, <<5>>, "mix"),
+    Part("PLI", 0, <<>>, "mix"), Part("NACK", 0, <<31, 32, 49>>, "mix") }
+IsForeign(p) == p.t \in {"RRR", "SLI", "XR", "REMBX"}
+ForeignLen(p) ==
+  CASE p.t = "RRR" -> 12 [] p.t = "SLI" -> 12 + 4 * p.n [] p.t = "XR" -> 8 [] p.t = "REMBX" -> 20 + 4 * p.n
+    [] p.t = "NACK" -> 12 + 4 * Cardinality(NackSetOf(p))      \* the peer sends one pair per packet here
+    [] OTHER -> PartLen(p)
+\* what the supported parts are expected to survive as: everything that is not foreign, in order
+Survivors(s) == SelectSeq(s, LAMBDA p : ~IsForeign(p) \/ p.t = "REMBX")
+ForeignNext ==
+  /\ Len(cur) < MaxCompound
+  /\ \E p \in ForeignParts \cup ForeignCompanions : cur' = Append(cur, p)
+  /\ hist' = hist
+ForeignLaws ==
+  /\ SeqSum([i \in 1..Len(cur) |-> ForeignLen(cur[i])]) % 4 = 0
+  /\ Len(Survivors(cur)) <= Len(cur)
+
+---------------------------------------------------------------------------
 (* ============================ header-extension Set / Get ================ *)
 (* State: a map id -> [len, ver] (ver = index of the Set that wrote the     *)
 (* value), the order of elements is left free (the property is silent).    *)
 (* base = how the header was obtained: "fresh" (no extension), "parsed1"   *)
-(* (one-byte block with two elements parsed from the wire), "parsed2"      *)
+(* (one-byte block with two elements parsed from the wire), "padded1" (the *)
+(* same with RFC 8285 padding octets before, between and after them),      *)
+(* "parsed2"                                                               *)
 (* (two-byte block: Set must refuse and leave the header untouched).       *)
 
-ExtBases == {"fresh", "parsed1", "parsed2"}
+ExtBases == {"fresh", "parsed1", "padded1", "parsed2"}
 BaseMap(b) ==
   CASE b = "fresh"   -> << >>
-    [] b = "parsed1" -> <<[id |-> 3, len |-> 2, ver |-> 0], [id |-> 9, len |-> 16, ver |-> 0]>>
+    [] b \in {"parsed1", "padded1"} -> <<[id |-> 3, len |-> 2, ver |-> 0], [id |-> 9, len |-> 16, ver |-> 0]>>
     [] b = "parsed2" -> <<[id |-> 3, len |-> 2, ver |-> 0], [id |-> 200, len |-> 40, ver |-> 0]>>
 
 ExtOps == { [id |-> i, len |-> l] : i \in ExtIds1, l \in ExtLens1 } \cup
@@ -611,6 +647,7 @@ Init ==
   CASE Mode = "rtp"      -> EnumInit(RtpCases)
     [] Mode = "rtcp"     -> EnumInit(RtcpParts)
     [] Mode = "compound" -> cur = <<>> /\ hist = <<>>
+    [] Mode = "foreign"  -> cur = <<>> /\ hist = <<>>
     [] Mode = "ext"      -> ExtInit
     [] Mode = "nack"     -> EnumInit(NackCases)
     [] Mode = "rtx"      -> EnumInit(RtxCases)
@@ -621,6 +658,7 @@ CompoundNext == Len(cur) < MaxCompound /\ \E p \in CompoundAlphabet : cur' = App
 
 Next ==
   CASE Mode = "compound" -> CompoundNext
+    [] Mode = "foreign"  -> ForeignNext
     [] Mode = "ext"      -> ExtNext
     [] Mode = "buf"      -> BufNext
     [] Mode = "gap"      -> GapNext
@@ -633,6 +671,7 @@ Laws ==
   CASE Mode = "rtp"      -> RtpLayoutLaws(cur)
     [] Mode = "rtcp"     -> RtcpInverseLaw(cur)
     [] Mode = "compound" -> CompoundLaws(cur)
+    [] Mode = "foreign"  -> ForeignLaws
     [] Mode = "ext"      -> ExtMapLaws
     [] Mode = "nack"     -> NackLaw(cur)
     [] Mode = "rtx"      -> RtxLaw(cur) /\ RtxShortLaw
